@@ -111,7 +111,10 @@ type ccHTLC struct {
 	Out  [3]int32
 
 	// Know: 0 preimage unknown, 1 in the witness beacon, 2 via a settled
-	// invoice in the registry.
+	// invoice in the registry, 3 in the witness beacon while the registry
+	// holds an unsettled hold invoice for the hash (no preimage in its
+	// terms), 4 only such a hold invoice (preimage unknown). 3 and 4 were
+	// added after seeded change C12g.
 	Know int
 
 	// Fwd: IsForwardedHTLC answer for an offered HTLC (false = our own
@@ -119,7 +122,7 @@ type ccHTLC struct {
 	Fwd bool
 }
 
-func (h *ccHTLC) known() bool { return h.Know != 0 }
+func (h *ccHTLC) known() bool { return h.Know >= 1 && h.Know <= 3 }
 
 // hasOutput reports whether the HTLC has an output on commitment s.
 func (h *ccHTLC) hasOutput(s int) bool { return h.On[s] && !h.Dust[s] }
@@ -447,7 +450,7 @@ func ccGenScenario(t *rapid.T, o ccGenOpts) *ccScenario {
 		h.Amt = lnwire.MilliSatoshi(
 			rapid.IntRange(1, 5_000_000).Draw(t, "amt"),
 		)
-		kn := []int{0, 0, 1, 2}
+		kn := []int{0, 0, 1, 2, 3, 4}
 		if o.noInvoice {
 			kn = []int{0, 0, 1}
 		}
@@ -565,6 +568,8 @@ type ccWorld struct {
 	// Preimage knowledge.
 	beacon   map[lntypes.Hash]lntypes.Preimage
 	invoices map[lntypes.Hash]lntypes.Preimage
+	// holdInvs: hashes with an unsettled hold invoice in the registry.
+	holdInvs map[lntypes.Hash]bool
 	witSubs  []*ccWitSub
 
 	// Subscriptions of the live incarnation.
@@ -623,6 +628,7 @@ func newCcWorld(height int32) *ccWorld {
 		remoteClaim: make(map[wire.OutPoint]ccClaim),
 		beacon:      make(map[lntypes.Hash]lntypes.Preimage),
 		invoices:    make(map[lntypes.Hash]lntypes.Preimage),
+		holdInvs:    make(map[lntypes.Hash]bool),
 		idents:      make(map[int64]string),
 	}
 }
@@ -636,6 +642,11 @@ func (w *ccWorld) applyKnowledge(sc *ccScenario) {
 			w.beacon[h.Hash] = h.Pre
 		case 2:
 			w.invoices[h.Hash] = h.Pre
+		case 3:
+			w.beacon[h.Hash] = h.Pre
+			w.holdInvs[h.Hash] = true
+		case 4:
+			w.holdInvs[h.Hash] = true
 		}
 	}
 }
@@ -930,6 +941,9 @@ func (r *ccRegistry) LookupInvoice(_ context.Context, h lntypes.Hash) (
 	w.mu.Lock()
 	defer w.mu.Unlock()
 	p, ok := w.invoices[h]
+	if !ok && w.holdInvs[h] {
+		return invoices.Invoice{}, nil
+	}
 	if !ok {
 		return invoices.Invoice{}, invoices.ErrInvoiceNotFound
 	}
